@@ -311,6 +311,9 @@ class World:
             return ('ok', progen.prov(nd['name'], kw))
         if b['kind'] == 'labels':           # a decision that may change from one invocation (iteration) to the next
             return ('ok', b['v'][min(inv, len(b['v']) - 1)])
+        if b['kind'] == 'labelhash':        # a decision that depends on the arguments (so, on the input of the run)
+            ks = ','.join(f'{k}={progen.fmt_val(v)}' for k, v in sorted((progen._key(k), v) for k, v in kw.items()))
+            return ('ok', b['v'][progen.fnv1a64(ks) % len(b['v'])])
         return ('ok', b['v'])
 
     async def abody(self, idx, inst, kw):
